@@ -6,23 +6,26 @@ use c2_chacha::guts::ChaCha;
 use serde_json::{json, Value};
 use std::collections::HashSet;
 
-#[cfg(not(feature = "nosimd"))]
+/// hooks compiled in? (the harness is built with the same --cfg flag as the crates under test; when a
+/// change to the repository breaks the hook code itself the driver rebuilds everything without it)
+pub const HOOKS: bool = cfg!(cryptocorrosion_verif);
+#[cfg(all(cryptocorrosion_verif, not(feature = "nosimd")))]
 pub fn force_backend(b: u8) {
     ppv_lite86::x86_64::verif::force_backend(b);
 }
-#[cfg(feature = "nosimd")]
+#[cfg(not(all(cryptocorrosion_verif, not(feature = "nosimd"))))]
 pub fn force_backend(_b: u8) {}
-#[cfg(not(feature = "nosimd"))]
+#[cfg(all(cryptocorrosion_verif, not(feature = "nosimd")))]
 pub fn taken_counts() -> [usize; 6] {
     ppv_lite86::x86_64::verif::taken_counts()
 }
-#[cfg(feature = "nosimd")]
+#[cfg(not(all(cryptocorrosion_verif, not(feature = "nosimd"))))]
 pub fn taken_counts() -> [usize; 6] {
     [0; 6]
 }
 pub const BACKENDS: [&str; 6] = ["cpuid", "sse2", "ssse3", "sse41", "avx", "avx2"];
 pub fn backend_list() -> Vec<u8> {
-    if cfg!(feature = "nosimd") { vec![0] } else { vec![0, 1, 2, 3, 4, 5] }
+    if cfg!(feature = "nosimd") || !HOOKS { vec![0] } else { vec![0, 1, 2, 3, 4, 5] }
 }
 
 fn key_n(i: usize) -> [u8; 32] {
@@ -199,7 +202,7 @@ pub fn run_c14(tier: &str, config: &str) -> Report {
     let after = taken_counts();
     let taken: Vec<usize> = (0..6).map(|i| after[i] - before[i]).collect();
     rep.set("forced_dispatch_hits", json!({"sse2": taken[1], "ssse3": taken[2], "sse41": taken[3], "avx": taken[4], "avx2": taken[5]}));
-    if !cfg!(feature = "nosimd") && taken[1..].iter().any(|t| *t == 0) {
+    if !cfg!(feature = "nosimd") && HOOKS && taken[1..].iter().any(|t| *t == 0) {
         rep.violation("c14:machinery:forced-backend-not-taken", "hook H1 reported zero dispatches for a forced backend".into(), json!({}));
     }
     rep
